@@ -11,6 +11,11 @@ Local Open Scope Q_scope.
 Fixpoint vnn (u : nat -> Q) (null : Q) (order : list nat) (m : list bool) : Q :=
   match order with [] => null | q :: t => if nth q m false then u q else vnn u null t m end.
 
-(* mean over validation points: us / nulls / orders are indexed by validation point *)
+(* mean over validation points; one triple (utility, null, order) per validation point *)
+Definition point := ((nat -> Q) * Q * list nat)%type.
+Definition vnn_mean_t (ts : list point) (m : list bool) : Q :=
+  sumQ (fun t : point => vnn (fst (fst t)) (snd (fst t)) (snd t) m) ts / qn (length ts).
+Definition points (us : list (nat -> Q)) (nulls : list Q) (orders : list (list nat)) : list point :=
+  combine (combine us nulls) orders.
 Definition vnn_mean (us : list (nat -> Q)) (nulls : list Q) (orders : list (list nat)) (m : list bool) : Q :=
-  sumQ (fun t => vnn (fst (fst t)) (snd (fst t)) (snd t) m) (combine (combine us nulls) orders) / qn (length orders).
+  vnn_mean_t (points us nulls orders) m.
